@@ -301,6 +301,16 @@ TDupEnd ==
               ELSE Inc("dup_same")
   /\ KeepS
 
+\* A request that was sent while others were held in flight did not return:
+\* the server makes it wait for one of them.
+TBlocked ==
+  /\ IsEvent("blocked")
+  /\ IF Line.x \notin Ctxs \/ cx[Line.x].kind # "idle" THEN Skip("NC:harness-context")
+     ELSE /\ SeqStart(Line.x, Line.sid, Line.slot, Line.sq, Line.cache, Line.shape)
+          /\ verdict' = IF reply'.kind = "wait" THEN "NC:harness-sent-a-duplicate-of-a-request-in-flight-synchronously"
+                        ELSE "C19:request-that-does-not-repeat-the-request-in-flight-waits-for-it"
+  /\ KeepT
+
 TDupHang ==
   /\ IsEvent("duphang")
   /\ Skip("C19:duplicate-of-request-in-flight-never-returned")
@@ -582,7 +592,7 @@ TSnap ==
 
 TNext ==
   \/ TReset \/ TClock \/ TExid \/ TCrses \/ TDsess \/ TDcid \/ TTrigger
-  \/ TSeq \/ TEnd \/ TDupStart \/ TDupEnd \/ TDupHang \/ TPanic \/ TAnomaly
+  \/ TSeq \/ TEnd \/ TDupStart \/ TDupEnd \/ TDupHang \/ TBlocked \/ TPanic \/ TAnomaly
   \/ TPutRootFH \/ TPutFH \/ TLookup \/ TGetFH \/ TSaveFH \/ TRestoreFH
   \/ TOpen \/ TOpenDowngrade \/ TClose \/ TLock \/ TLockT \/ TLockU
   \/ TFreeStateID \/ TTestStateID \/ TIO("READ") \/ TIO("WRITE") \/ TIOStart
